@@ -18,15 +18,16 @@
 
    OUT OF THE MODEL (the functions return [None]):
    - any compression or LZ4_loadDictHC while compressionLevel >= 3 (hash-chain / optimal parsers);
-   - a compression that reaches the dictionary-context SEARCH (LZ4HC_compress_generic_dictCtx third
-     branch, usingDictCtxHc: LZ4MID_searchExtDict / LZ4MID_searchHCDict): an attached dictCtx with
-     position < 64 KB that is not copied (position <> 0, or input <= 4 KB, or dictionary stream at a
-     level >= 3);
+   - a compression that reaches the dictionary-context search while the DICTIONARY stream is at a level >= 3
+     (LZ4HC_compress_generic_dictCtx third branch with select_searchDict_function = LZ4MID_searchHCDict,
+     the cross-strategy search through the dictionary's chain table);
    - the size_t wrap of the fillOutput epilogue flagged by Model.HcMid (MUndef).
    In the model are: no dictCtx; dictCtx with position >= 64 KB (detached); dictCtx copied into the
-   working context (first block > 4 KB, both streams at lz4mid levels). *)
+   working context (first block > 4 KB, both streams at lz4mid levels); the usingDictCtxHc search when the
+   dictionary stream is at an lz4mid level (LZ4MID_searchExtDict = Model.HcMidDict.dict_search, with
+   gDictEndIndex = lowLimit: the dictionary's prefix sits just below lowLimit in the virtual index space). *)
 From Coq Require Import ZArith List Lia Bool FMapPositive.
-From LZ4V Require Import Gen.Consts Spec.BlockSpec Model.Mem Model.Fast Model.FastApi Model.HcEmit Model.HcMid.
+From LZ4V Require Import Gen.Consts Spec.BlockSpec Model.Mem Model.Fast Model.FastApi Model.HcEmit Model.HcMid Model.HcMidDict.
 Import ListNotations.
 Local Open Scope Z_scope.
 
@@ -135,18 +136,32 @@ Definition k_vrd (m : mem) (k : hcore) : Z -> Z :=
   fun i => if i >=? k_dictLimit k then get m (k_prefixStart k + (i - k_dictLimit k))
            else get m (k_dictStart k + (i - k_lowLimit k)).
 
+(* with an attached dictionary context [d] searched in place: dictionary index l is the byte
+   `d->prefixStart - d->dictLimit + l` = d->end - (lDictEndIndex - l), i.e. virtual index
+   l + lowLimit - lDictEndIndex, which is below lowLimit *)
+Definition kd_vrd (m : mem) (k : hcore) (dc : option hcore) : Z -> Z :=
+  match dc with
+  | None => k_vrd m k
+  | Some d => fun i => if i >=? k_lowLimit k then k_vrd m k i else get m (k_end d + (i - k_lowLimit k))
+  end.
+
 Definition with_tabs (k : hcore) (h4 h8 : mem) (e : Z) (dirty : bool) : hcore :=
   mkK h4 h8 e (k_prefixStart k) (k_dictStart k) (k_dictLimit k) (k_lowLimit k) (k_ntu k) (k_level k) dirty.
 
-(* LZ4HC_compress_generic_internal, strat = lz4mid, dict = noDictCtx; [dc] is what ctx->dictCtx holds
-   (NULL on the noDictCtx path; kept for the re-anchoring statement `ctx->dictCtx = NULL`) *)
+(* LZ4HC_compress_generic_internal, strat = lz4mid; [dc] is what ctx->dictCtx holds: None = noDictCtx,
+   Some d = usingDictCtxHc with a dictionary context at an lz4mid level (LZ4MID_searchExtDict) *)
 Definition k_generic_mid (m : mem) (k : hcore) (dc : option hcore) (src n cap : Z) (lim : outdir) : option hsres :=
   if (match lim with FillOutput => cap <? 1 | _ => false end) then Some (HRes 0 n [] 0 (mkHS k dc))
   else if u32 n >? LZ4_MAX_INPUT_SIZE then Some (HRes 0 n [] 0 (mkHS k dc))
   else
     let s0 := k_dictLimit k + (k_end k - k_prefixStart k) in
     let e' := k_end k + n in
-    match mid_compress (k_vrd m k) lim (k_dictLimit k) (k_lowLimit k) s0 n cap (k_h4 k) (k_h8 k) with
+    let vrd := kd_vrd m k dc in
+    let dsrch := match dc with
+                 | None => fun _ => None
+                 | Some d => dict_search vrd s0 n (k_lowLimit k) (k_h4 d) (k_h8 d) (k_endIdx d)
+                 end in
+    match mid_compress vrd lim (k_dictLimit k) (k_lowLimit k) s0 n cap dsrch (k_h4 k) (k_h8 k) with
     | MFail h4 h8 hw => Some (HRes 0 n [] hw (mkHS (with_tabs k h4 h8 e' true) dc))
     | MUndef => None
     | MOk ret consumed out h4 h8 hw =>
@@ -174,7 +189,8 @@ Definition hs_generic (m : mem) (c : hsctx) (src n cap : Z) (lim : outdir) : opt
       let k' := mkK (k_h4 k') (k_h8 k') (k_end k') (k_prefixStart k') (k_dictStart k') (k_dictLimit k') (k_lowLimit k') (k_ntu k')
                     (k_level k) (k_dirty k') in
       k_generic_mid m k' None src n cap lim
-    else None       (* usingDictCtxHc: the dictionary-context search is not modelled *)
+    else if is_mid (k_level d) then k_generic_mid m k (Some d) src n cap lim    (* usingDictCtxHc, LZ4MID_searchExtDict *)
+    else None       (* usingDictCtxHc with LZ4MID_searchHCDict (dictionary at a level >= 3): not modelled *)
   end.
 
 (* ---------------------------------------------------------------- LZ4_compressHC_continue_generic *)
@@ -243,7 +259,8 @@ Definition hs_saveDict (m : mem) (c : hsctx) (safeBuffer dictSize : Z) : mem * h
   let dl := u32 (endIndex - ds) in
   let k' := mkK (k_h4 k) (k_h8 k) (if safeBuffer =? 0 then 0 else safeBuffer + ds) safeBuffer safeBuffer dl dl
                 (if k_ntu k <? dl then dl else k_ntu k) (k_level k) (k_dirty k) in
-  (m', mkHS k' (hs_dctx c), ds).
+  (* fix F18: part of the history is dropped => an attached dictionary context is detached *)
+  (m', mkHS k' (if ds <? prefixSize then None else hs_dctx c), ds).
 
 (* ---------------------------------------------------------------- operation lists *)
 Inductive hop :=
